@@ -18,7 +18,16 @@ pub struct Histories {
     pub located_only: Option<&'static str>,
 }
 
-const FILES: [&str; 4] = ["main.oal", "a.oal", "lib/b.oal", "c.oal"];
+/// The workspace folder is `<scratch>/ws`; the last module lives outside of it, next to the folder.
+const FILES: [&str; 4] = ["main.oal", "a.oal", "lib/b.oal", "../c.oal"];
+
+/// Path of a workspace file (names starting with `../` are relative to the folder's parent).
+fn path_of(ws: &std::path::Path, name: &str) -> std::path::PathBuf {
+    match name.strip_prefix("../") {
+        Some(rest) => ws.parent().unwrap_or(ws).join(rest),
+        None => ws.join(name),
+    }
+}
 
 /// Text variants per file: valid ones and ones with an error at some phase; multi-byte and CRLF content.
 fn variants(file: usize) -> Vec<&'static str> {
@@ -32,7 +41,7 @@ fn variants(file: usize) -> Vec<&'static str> {
             "use \"a.oal\" as a;\nlet m = { 'x a.v } | num;\nres / on get -> m;\n",
             "use \"a.oal\" as a;\nlet m = { 'x a.nope };\nres / on get -> m;\n",
             "use \"a.oal\" as a;\nlet m = { 'x a.v ;\nres / on get -> m;\n",
-            "use \"a.oal\" as a;\nuse \"c.oal\" as c;\nlet m = { 'x a.v, 'z c.u };\nres / on get -> m `description: \"é€😉\"`;\n",
+            "use \"a.oal\" as a;\nuse \"../c.oal\" as c;\nlet m = { 'x a.v, 'z c.u };\nres / on get -> m `description: \"é€😉\"`;\n",
             "let m = { 'x nope };\nres / on get -> m;\n",
         ],
         1 => vec![
@@ -228,14 +237,14 @@ fn observe(lsp: &mut Lsp, dir: &std::path::Path, texts: &[String]) -> Result<(Ob
     // one request forces the refresh that the preceding notifications made due; what has been published when its
     // response arrives is the server's view of the current texts (a later request must not be needed to get there)
     let first = (0..FILES.len()).find(|f| texts[*f] != ABSENT).unwrap_or(0);
-    lsp.position_request("textDocument/definition", &file_uri(&dir.join(FILES[first])), 0, 0)?;
+    lsp.position_request("textDocument/definition", &file_uri(&path_of(dir, FILES[first])), 0, 0)?;
     let published = lsp.diags.clone();
     let mut answers = Vec::new();
     for (f, name) in FILES.iter().enumerate() {
         if texts[f] == ABSENT {
             continue;
         }
-        let uri = file_uri(&dir.join(name));
+        let uri = file_uri(&path_of(dir, name));
         let doc = ClientDoc::new(&texts[f]);
         // identifier starts and a few fixed offsets
         let mut offs: Vec<usize> = Vec::new();
@@ -302,7 +311,7 @@ fn normalise(v: &Value) -> Vec<String> {
 fn write_disk(dir: &std::path::Path, disk: &[usize]) {
     std::fs::create_dir_all(dir.join("lib")).unwrap();
     for (f, name) in FILES.iter().enumerate() {
-        std::fs::write(dir.join(name), variants(f)[disk[f]]).unwrap();
+        std::fs::write(path_of(dir, name), variants(f)[disk[f]]).unwrap();
     }
     std::fs::write(dir.join("oal.toml"), "[api]\nmain = \"main.oal\"\ntarget = \"out.yaml\"\n").unwrap();
 }
@@ -310,8 +319,10 @@ fn write_disk(dir: &std::path::Path, disk: &[usize]) {
 fn run_history(disk: &[usize], steps: &[Step], located_only: Option<&'static str>, st: &mut Stats) -> Vec<Violation> {
     let prop = located_only.unwrap_or("C15");
     let dir = TempDir::new("c15");
-    write_disk(&dir.path, disk);
-    let uris: Vec<String> = FILES.iter().map(|n| file_uri(&dir.path.join(n))).collect();
+    let ws = dir.path.join("ws");
+    std::fs::create_dir_all(&ws).unwrap();
+    write_disk(&ws, disk);
+    let uris: Vec<String> = FILES.iter().map(|n| file_uri(&path_of(&ws, n))).collect();
     let mut client = Client {
         docs: vec![None; 4],
         versions: vec![0; 4],
@@ -328,7 +339,7 @@ fn run_history(disk: &[usize], steps: &[Step], located_only: Option<&'static str
             json!({"signature": format!("{prop} server-{kind} on {what}"), "step": step, "error": crate::util::clip(&format!("{e:?}"), 600)}),
         )]
     };
-    let mut lsp = match Lsp::start(&dir.path, None) {
+    let mut lsp = match Lsp::start(&ws, None) {
         Ok(l) => l,
         Err(e) => return fail(e, 0, "start"),
     };
@@ -392,7 +403,7 @@ fn run_history(disk: &[usize], steps: &[Step], located_only: Option<&'static str
             }
             Step::DeleteOnDisk(f, g) => {
                 st.inc("step:delete-on-disk");
-                let _ = std::fs::remove_file(dir.path.join(FILES[*f]));
+                let _ = std::fs::remove_file(path_of(&ws, FILES[*f]));
                 on_disk[*f] = false;
                 let text = client.docs[*g].as_ref().map(|d| d.text()).unwrap_or_default();
                 client.versions[*g] += 1;
@@ -407,7 +418,7 @@ fn run_history(disk: &[usize], steps: &[Step], located_only: Option<&'static str
                         None => ABSENT.to_owned(),
                     })
                     .collect();
-                let (h, h_published) = match observe(&mut lsp, &dir.path, &texts) {
+                let (h, h_published) = match observe(&mut lsp, &ws, &texts) {
                     Ok(o) => o,
                     Err(e) => return fail(e, i, "probe"),
                 };
@@ -432,7 +443,7 @@ fn run_history(disk: &[usize], steps: &[Step], located_only: Option<&'static str
                     st.inc("located_oracle_skipped_import_string_with_url_syntax");
                 } else if let Some(exp) = super::common::error_location(&src) {
                     st.inc("located_errors_checked");
-                    let uri_of = |file: &str| file_uri(&dir.path.join(file));
+                    let uri_of = |file: &str| file_uri(&path_of(&ws, file));
                     let text_of = |file: &str| FILES.iter().position(|n| *n == file).map(|f| texts[f].clone());
                     if let Some((class, detail)) = super::common::check_error_published(&h_published, &uri_of, &text_of, &exp) {
                         return vec![Violation::new(
@@ -445,7 +456,7 @@ fn run_history(disk: &[usize], steps: &[Step], located_only: Option<&'static str
                     continue;
                 }
                 // fresh server handed the client's final texts of the still-open documents
-                let mut fresh = match Lsp::start(&dir.path, None) {
+                let mut fresh = match Lsp::start(&ws, None) {
                     Ok(l) => l,
                     Err(e) => return fail(e, i, "fresh start"),
                 };
@@ -456,7 +467,7 @@ fn run_history(disk: &[usize], steps: &[Step], located_only: Option<&'static str
                         }
                     }
                 }
-                let (fr, _) = match observe(&mut fresh, &dir.path, &texts) {
+                let (fr, _) = match observe(&mut fresh, &ws, &texts) {
                     Ok(o) => o,
                     Err(e) => return fail(e, i, "fresh probe"),
                 };
